@@ -66,6 +66,7 @@ type result struct {
 	Runs        map[string]runOut `json:"runs"`
 	UserDecls   []declOut         `json:"user_decls,omitempty"`
 	Elapsed     float64           `json:"elapsed"`
+	Phases      map[string]float64 `json:"phases"`
 }
 
 func clip(s string) string {
@@ -88,8 +89,14 @@ func isUser(pkg string) bool { return pkg == "." || strings.HasPrefix(pkg, "gvp"
 
 func runJob(j job, scratch string) (res result) {
 	t0 := time.Now()
-	res = result{ID: j.ID, Runs: map[string]runOut{}}
+	res = result{ID: j.ID, Runs: map[string]runOut{}, Phases: map[string]float64{}}
 	defer func() { res.Elapsed = time.Since(t0).Seconds() }()
+	last := t0
+	phase := func(name string) {
+		now := time.Now()
+		res.Phases[name] += now.Sub(last).Seconds()
+		last = now
+	}
 	if j.Mod == "" {
 		j.Mod = "gvp" + sanitize(j.ID)
 	}
@@ -103,7 +110,9 @@ func runJob(j job, scratch string) (res result) {
 	if to == 0 {
 		to = 20 * time.Second
 	}
+	phase("setup")
 	b, err := c05.Build(dir, nil)
+	phase("build")
 	if err != nil {
 		res.Err = "compile-error: " + err.Error()
 		res.Runs["plain"] = runOut{Err: err.Error(), Class: "compile-error"}
@@ -133,6 +142,7 @@ func runJob(j job, scratch string) (res result) {
 		res.ModelLine = c05.ModelLine(b.Decls, "fwd", "lifo")
 		res.Selected = c05.SelectedLine(b.Decls)
 		res.ClosureBad, res.ClosureRefs = b.ClosureScan()
+		phase("scan")
 
 		link := func(variant string) {
 			js, err := b.Link()
@@ -140,8 +150,10 @@ func runJob(j job, scratch string) (res result) {
 				res.Runs[variant] = runOut{Err: err.Error(), Class: "compile-error"}
 				return
 			}
+			phase("link")
 			if variant == "plain" {
 				res.EmissionBad = b.EmissionMatches(js)
+				phase("emission")
 			}
 			jsPath := filepath.Join(dir, "out_"+variant+".js")
 			if err := os.WriteFile(jsPath, js, 0o644); err != nil {
@@ -149,6 +161,7 @@ func runJob(j job, scratch string) (res result) {
 				return
 			}
 			r := gojs.RunNode(jsPath, to)
+			phase("node")
 			res.Runs[variant] = runOut{Stdout: clip(r.Stdout), Stderr: clip(r.Stderr), Class: r.Class(), Exit: r.Exit, JSLen: len(js)}
 		}
 		link("plain")
@@ -163,6 +176,7 @@ func runJob(j job, scratch string) (res result) {
 			r := gojs.RunNative(bin, to)
 			res.Runs["native"] = runOut{Stdout: clip(r.Stdout), Stderr: clip(r.Stderr), Class: r.Class(), Exit: r.Exit}
 		}
+		phase("native")
 	}
 	return
 }
